@@ -640,7 +640,7 @@ package uhppote
 //@   params u, serialNumber
 //@   returns (res, err)
 //@   requires client: u != nil && u.driver != nil
-//@   attr noaxioms = time.
+//@   attr noaxioms = time.off,time.decomp,time.cal.range,time.cal.inv2,time.cal.mono,time.exists,time.dayExists,time.civil.def
 //@   attr opaque = bcd.
 //@   modifies sent.n, sent.kind, sent.iplen, sent.ipb, sent.port, sent.bytes, recv.n, recv.len, recv.bytes
 //@   define N0 = old(sent.n)
@@ -651,7 +651,7 @@ package uhppote
 //@   ensures wire:   !(serialNumber == 0) ==> wire.header(B, 0x20, serialNumber) && wire.zero(B, 8, 64)
 //@   ensures route:  !(serialNumber == 0) ==> routed(u, serialNumber, N0)
 //@   ensures accept: err == nil ==> accepted(N0, 0x20, serialNumber) && R[13] <= 1 && R[28] <= 1 && R[29] <= 1 && R[30] <= 1 && R[31] <= 1 && R[32] <= 1 && R[33] <= 1 && R[34] <= 1 && R[35] <= 1 && wire.rdtOK(R, 20) && (wire.rsysdateOK(R, 51) ==> wire.bcdok(R, 51, 3) && time.validDate(wire.rsysY(R, 51), bcd.val2(R[52]), bcd.val2(R[53]))) && wire.bcdok(R, 37, 3) && time.validClock(bcd.val2(R[37]), bcd.val2(R[38]), bcd.val2(R[39]))
-//@   ensures result: err == nil ==> res != nil && res.SerialNumber == serialNumber && res.SystemError == R[36] && res.SequenceId == wire.u32(R, 40) && res.SpecialInfo == R[48] && res.RelayState == R[49] && res.InputState == R[50] && (res.DoorState[1] <==> R[28] == 1) && (res.DoorState[2] <==> R[29] == 1) && (res.DoorState[3] <==> R[30] == 1) && (res.DoorState[4] <==> R[31] == 1) && (res.DoorButton[1] <==> R[32] == 1) && (res.DoorButton[2] <==> R[33] == 1) && (res.DoorButton[3] <==> R[34] == 1) && (res.DoorButton[4] <==> R[35] == 1) && (wire.u32(R, 8) == 0 ==> res.Event.Index == 0 && res.Event.Type == 0 && res.Event.CardNumber == 0 && res.Event.Timestamp.abs == 0) && (wire.u32(R, 8) != 0 ==> res.Event.Index == wire.u32(R, 8) && res.Event.Type == R[12] && (res.Event.Granted <==> R[13] == 1) && res.Event.Door == R[14] && res.Event.Direction == R[15] && res.Event.CardNumber == wire.u32(R, 16) && res.Event.Reason == R[27] && wire.rdatetime(R, 20, res.Event.Timestamp.abs, res.Event.Timestamp.ns, res.Event.Timestamp.loc)) && (!wire.rsysdateOK(R, 51) ==> res.SystemDateTime.abs == 0 && res.SystemDateTime.ns == 0)
+//@   ensures result: err == nil ==> res != nil && res.SerialNumber == serialNumber && res.SystemError == R[36] && res.SequenceId == wire.u32(R, 40) && res.SpecialInfo == R[48] && res.RelayState == R[49] && res.InputState == R[50] && (res.DoorState[1] <==> R[28] == 1) && (res.DoorState[2] <==> R[29] == 1) && (res.DoorState[3] <==> R[30] == 1) && (res.DoorState[4] <==> R[31] == 1) && (res.DoorButton[1] <==> R[32] == 1) && (res.DoorButton[2] <==> R[33] == 1) && (res.DoorButton[3] <==> R[34] == 1) && (res.DoorButton[4] <==> R[35] == 1) && (wire.u32(R, 8) == 0 ==> res.Event.Index == 0 && res.Event.Type == 0 && res.Event.CardNumber == 0 && res.Event.Timestamp.abs == 0) && (wire.u32(R, 8) != 0 ==> res.Event.Index == wire.u32(R, 8) && res.Event.Type == R[12] && (res.Event.Granted <==> R[13] == 1) && res.Event.Door == R[14] && res.Event.Direction == R[15] && res.Event.CardNumber == wire.u32(R, 16) && res.Event.Reason == R[27] && wire.rdatetime(R, 20, res.Event.Timestamp.abs, res.Event.Timestamp.ns, res.Event.Timestamp.loc)) && (!wire.rsysdateOK(R, 51) ==> res.SystemDateTime.abs == 0 && res.SystemDateTime.ns == 0) && (wire.rsysdateOK(R, 51) && time.dateAbs(time.civil(wire.rsysY(R, 51), bcd.val2(R[52]), bcd.val2(R[53]), 0, 0, 0), time.Local) != 0 && time.exists(time.civil(wire.rsysY(R, 51), bcd.val2(R[52]), bcd.val2(R[53]), 0, 0, 0), time.Local) && time.exists(time.civil(0, 1, 1, bcd.val2(R[37]), bcd.val2(R[38]), bcd.val2(R[39])), time.Local) && time.exists(time.civil(wire.rsysY(R, 51), bcd.val2(R[52]), bcd.val2(R[53]), bcd.val2(R[37]), bcd.val2(R[38]), bcd.val2(R[39])), time.Local) ==> time.year(res.SystemDateTime.abs, res.SystemDateTime.loc) == wire.rsysY(R, 51) && time.month(res.SystemDateTime.abs, res.SystemDateTime.loc) == bcd.val2(R[52]) && time.day(res.SystemDateTime.abs, res.SystemDateTime.loc) == bcd.val2(R[53]) && time.hour(res.SystemDateTime.abs, res.SystemDateTime.loc) == bcd.val2(R[37]) && time.minute(res.SystemDateTime.abs, res.SystemDateTime.loc) == bcd.val2(R[38]) && time.second(res.SystemDateTime.abs, res.SystemDateTime.loc) == bcd.val2(R[39]))
 
 // ---- GENERATED: end ----
 
@@ -800,10 +800,35 @@ package uhppote
 //@   modifies evt.errors
 //@   ensures event: evt.errors == old(evt.errors) + 1
 
+// OnEvent is called from one place only, the dispatch goroutine of Listen, with the status built from the
+// event E just received from the pipe: the precondition states that mapping (checked at that call site)
 //@ func Listener.OnEvent
 //@   params status
+//@   define E = chanlast()
+//@   requires mapping: status != nil && E != nil && status.SerialNumber == E.SerialNumber && status.SystemError == E.SystemError && status.SequenceId == E.SequenceId &&
+//@                       status.SpecialInfo == E.SpecialInfo && status.RelayState == E.RelayState && status.InputState == E.InputState &&
+//@                       status.DoorState != nil && (status.DoorState[1] <==> E.Door1State) && (status.DoorState[2] <==> E.Door2State) && (status.DoorState[3] <==> E.Door3State) && (status.DoorState[4] <==> E.Door4State) &&
+//@                       status.DoorButton != nil && (status.DoorButton[1] <==> E.Door1Button) && (status.DoorButton[2] <==> E.Door2Button) && (status.DoorButton[3] <==> E.Door3Button) && (status.DoorButton[4] <==> E.Door4Button)
+//@   requires event:   (E.EventIndex == 0 ==> status.Event.Index == 0 && status.Event.Type == 0 && status.Event.CardNumber == 0 && status.Event.Door == 0) &&
+//@                       (E.EventIndex != 0 ==> status.Event.Index == E.EventIndex && status.Event.Type == E.EventType && (status.Event.Granted <==> E.Granted) && status.Event.Door == E.Door &&
+//@                          status.Event.Direction == E.Direction && status.Event.CardNumber == E.CardNumber && status.Event.Reason == E.Reason &&
+//@                          status.Event.Timestamp.abs == E.Timestamp.abs && status.Event.Timestamp.ns == E.Timestamp.ns)
+//@   requires sysdt:   (sdtZero(E.SystemDate) ==> status.SystemDateTime.abs == 0 && status.SystemDateTime.ns == 0) &&
+//@                       (!sdtZero(E.SystemDate) && 0 <= time.year(E.SystemDate.abs, E.SystemDate.loc) && time.year(E.SystemDate.abs, E.SystemDate.loc) <= 9999 &&
+//@                          time.exists(sdtCivil(E.SystemDate, E.SystemTime), time.Local) ==> sdtSame(status.SystemDateTime, E.SystemDate, E.SystemTime))
+//@   requires own:     fresh(status.DoorState) && fresh(status.DoorButton)
 //@   modifies evt.events
 //@   ensures event: evt.events == old(evt.events) + 1
+
+// the dispatch goroutine of Listen: for every event received from the pipe exactly one OnEvent (with the status
+// described by OnEvent's precondition), never OnError / OnConnected
+//@ func (*uhppote).Listen$2
+//@   requires listener: listener != nil
+//@   attr freevar.sysdatetime = (*uhppote).Listen$1
+//@   modifies evt.events
+//@   ensures quiet: evt.errors == old(evt.errors) && evt.connected == old(evt.connected)
+//@   loop 1
+//@     invariant quiet: evt.errors == old(evt.errors) && evt.connected == old(evt.connected)
 
 //@ func Listener.OnConnected
 //@   modifies evt.connected
@@ -882,3 +907,27 @@ package uhppote
 //@     invariant kind:  forall k int :: 0 <= k && k < len(replies) ==> dyntype(replies[k]) == typeid("messages.GetDeviceResponse")
 //@     invariant ports: forall k int :: 0 <= k && k < len(controllers) ==> (controllers[k].Address.ip.kind == 0 || controllers[k].Address.port == P)
 //@     invariant names: forall k int :: 0 <= k && k < len(controllers) ==> controllers[k].Name == (has(u.devices, controllers[k].SerialNumber) ? u.devices[controllers[k].SerialNumber].Name : "")
+
+
+// ---- C13: the controller's system date and time are combined into one local date-time -----------------
+// (closures of GetStatus and Listen; SD / ST are the decoded system date and system time)
+//@ macro sdtZero(sd) = sd.abs == 0 && sd.ns == 0
+//@ macro sdtCivil(sd, st) = time.civil(time.year(sd.abs, sd.loc), time.month(sd.abs, sd.loc), time.day(sd.abs, sd.loc), time.hour(st.abs, st.loc), time.minute(st.abs, st.loc), time.second(st.abs, st.loc))
+//@ macro sdtSame(dt, sd, st) = time.year(dt.abs, dt.loc) == time.year(sd.abs, sd.loc) && time.month(dt.abs, dt.loc) == time.month(sd.abs, sd.loc) && time.day(dt.abs, dt.loc) == time.day(sd.abs, sd.loc) &&
+//@                             time.hour(dt.abs, dt.loc) == time.hour(st.abs, st.loc) && time.minute(dt.abs, dt.loc) == time.minute(st.abs, st.loc) && time.second(dt.abs, dt.loc) == time.second(st.abs, st.loc)
+
+//@ func (*uhppote).GetStatus$1
+//@   returns dt
+//@   attr opaque = bcd.
+//@   ensures zero:  sdtZero(reply.SystemDate) ==> dt.abs == 0 && dt.ns == 0
+//@   ensures civil: !sdtZero(reply.SystemDate) && 0 <= time.year(reply.SystemDate.abs, reply.SystemDate.loc) && time.year(reply.SystemDate.abs, reply.SystemDate.loc) <= 9999 &&
+//@                    time.exists(sdtCivil(reply.SystemDate, reply.SystemTime), time.Local) ==> sdtSame(dt, reply.SystemDate, reply.SystemTime)
+
+//@ func (*uhppote).Listen$1
+//@   params e
+//@   returns dt
+//@   requires event: e != nil
+//@   attr opaque = bcd.
+//@   ensures zero:  sdtZero(e.SystemDate) ==> dt.abs == 0 && dt.ns == 0
+//@   ensures civil: !sdtZero(e.SystemDate) && 0 <= time.year(e.SystemDate.abs, e.SystemDate.loc) && time.year(e.SystemDate.abs, e.SystemDate.loc) <= 9999 &&
+//@                    time.exists(sdtCivil(e.SystemDate, e.SystemTime), time.Local) ==> sdtSame(dt, e.SystemDate, e.SystemTime)
